@@ -96,7 +96,7 @@ def alt_table(atm, cells_dense, route, object_ids=False):
 
 ROUTES = ['csr-sorted', 'csr-reversed', 'explicit-zero', 'csc', 'coo', 'dense-array', 'triples', 'sort-then-inverse',
           'filter-keeping-all', 'larger-then-filtered', 'copy']
-ACCESSORS = ['none', 'nnz', 'data-sample', 'data-observation', 'iter', 'eq-self', 'sum', 'density']
+ACCESSORS = ['none', 'nnz', 'data-sample', 'data-observation', 'iter', 'eq-self', 'sum', 'density', 'tsv-absent-key']
 
 
 def touch(t, how, atm):
@@ -114,6 +114,8 @@ def touch(t, how, atm):
         t.sum('whole')
     elif how == 'density':
         t.get_table_density()
+    elif how == 'tsv-absent-key':       # an export naming a metadata category no observation carries
+        t.to_tsv(header_key='lineage', header_value='lineage')
 
 
 def _doc_equal(d1, d2):
@@ -169,8 +171,11 @@ def h_equal(nr, nc, route, accs=ACCESSORS):
     md = pick(['none', 'both'], 'md')
     A, a = make_table(nr, nc, md=md, zeros=1, type_='OTU table')
     Bt = alt_table(a, a.dense, route, object_ids=(len(accs) == len(ACCESSORS) and flag('ids-as-object-array')))
-    acc_a = pick(list(accs), 'accessor-on-A')
-    acc_b = pick(list(accs), 'accessor-on-B')
+    if len(accs) == len(ACCESSORS):
+        pairs = [(x, y) for x in accs for y in accs]
+    else:       # quick tier: one side untouched, or the same call on both sides
+        pairs = [(x, 'none') for x in accs] + [('none', y) for y in accs[1:]] + [(x, x) for x in accs[1:]]
+    acc_a, acc_b = pairs[choice(len(pairs), 'read-only-calls-before')]
     touch(A, acc_a, a)
     touch(Bt, acc_b, a)
     sig = dict(route=route, a_explicit_zero=int(a.info['explicit_zero']))
@@ -296,7 +301,7 @@ def jobs(tier):
     shapes = [(2, 2)] if tier == 'quick' else [(2, 2), (2, 3), (3, 2)]
     for nr, nc in shapes:
         for r in ROUTES:
-            out.append(('equal', (nr, nc, r) + ((['none', 'nnz', 'data-sample'],) if tier == 'quick' else ())))
+            out.append(('equal', (nr, nc, r) + ((['none', 'nnz', 'data-sample', 'tsv-absent-key'],) if tier == 'quick' else ())))
         for d in DIFFS:
             out.append(('unequal', (nr, nc, d)))
     return out
@@ -312,8 +317,8 @@ META = {
     'encoded': {'biom/table.py': ['__eq__', '__ne__', 'descriptive_equality', '_data_equality', 'nnz', 'data', 'get_value_by_ids', 'copy',
                                   '__init__', '_to_sparse', 'nparray_to_sparse', 'list_list_to_sparse', 'sort_order', 'filter',
                                   'get_table_density', 'iter', 'sum']},
-    'bounds': {'quick': {'shapes': '2x2, <=1 explicit zero per table, 10 construction routes x 8x8 accessor interleavings'},
-               'thorough': {'shapes': '2x2, 2x3, 3x2'}},
+    'bounds': {'quick': {'shapes': '2x2, <=1 explicit zero per table, 11 construction routes x 10 read-only-call pairs (none / nnz / data / TSV export naming an absent metadata category; one side untouched or the same call on both)'},
+               'thorough': {'shapes': '2x2, 2x3, 3x2; all 9x9 pairs of read-only calls'}},
     'outside': ['NaN values', 'HDF5 export equality in the quick tier (thorough only; C04 proves the written content is a function of the content for every representation)'],
     'assumptions': ['scipy.sparse model of != / tocsr / eliminate_zeros'],
 }
